@@ -6,6 +6,7 @@ import (
 	"errors"
 	"fmt"
 	"io"
+	"strings"
 	"testing"
 
 	"github.com/ipfs/go-cid"
@@ -105,7 +106,9 @@ type c06Fault struct {
 	rdErr   bool // a read error is injected
 }
 
-var c06Loaders = []string{"Load", "LoadRaw", "LoadPlusRaw", "Fill"}
+// "Load/kind" and "Fill/kind" use a prototype of a kind the block's root does not have: the decode then fails
+// with a wrong-kind error at once, which must still not take precedence over a hash mismatch
+var c06Loaders = []string{"Load", "LoadRaw", "LoadPlusRaw", "Fill", "Load/kind", "Fill/kind"}
 
 func c06Check(c C06Case, rec *evid.Rec) error {
 	v, other := c.V, c.Other
@@ -221,6 +224,10 @@ func c06Check(c C06Case, rec *evid.Rec) error {
 	if kerr != nil {
 		return fmt.Errorf("LoadPlusRaw of the block just stored failed: %w", kerr)
 	}
+	var wrongProto datamodel.NodePrototype = basicnode.Prototype.String
+	if expect.K == val.String {
+		wrongProto = basicnode.Prototype.List
+	}
 	blockHash := val.HashBytes(append(append([]byte{}, block...), c.LP.String()...))
 	for fi, f := range faults {
 		f := f
@@ -252,6 +259,14 @@ func c06Check(c C06Case, rec *evid.Rec) error {
 					raw, e = ls.LoadRaw(lctx, lnk)
 				case "LoadPlusRaw":
 					got, raw, e = ls.LoadPlusRaw(lctx, lnk, basicnode.Prototype.Any)
+				case "Load/kind":
+					got, e = ls.Load(lctx, lnk, wrongProto)
+				case "Fill/kind":
+					nb := wrongProto.NewBuilder()
+					e = ls.Fill(lctx, lnk, nb)
+					if e == nil {
+						got = nb.Build()
+					}
 				default:
 					nb := basicnode.Prototype.Any.NewBuilder()
 					e = ls.Fill(lctx, lnk, nb)
@@ -283,6 +298,12 @@ func c06Check(c C06Case, rec *evid.Rec) error {
 				}
 				if got != nil || raw != nil {
 					return fmt.Errorf("%s: hash mismatch reported but data was returned as well", where)
+				}
+			case bytes.Equal(f.served, block) && strings.HasSuffix(loader, "/kind"):
+				// good data into a builder of another kind: refused for its kind (any error but a hash mismatch)
+				var hm linking.ErrHashMismatch
+				if err == nil || errors.As(err, &hm) {
+					return fmt.Errorf("%s: good data loaded into a builder of another kind gave %v", where, err)
 				}
 			case bytes.Equal(f.served, block):
 				if err != nil && f.lenient {
@@ -363,7 +384,7 @@ func drawSmallCodecValue(t *rapid.T, codec uint64, label string) val.V {
 
 var c06Part = evid.Part[C06Case]{
 	Prop: "C06", Name: "loadfaults", Quick: 320, Thorough: 80000,
-	Rule: "per drawn block (small value × 5 codecs × 10 hash functions incl. identity and 1-2 byte truncated digests; blocks ≤160 B): EVERY single-bit flip, EVERY truncation length, extensions (1 byte, whitespace, duplicate item, random tail; also delivered in chunks ending at the old end, byte-wise, and with a (0, nil) read at the old end), a (0, nil) read after EVERY offset of the correct block, substitution by another block / empty block, a read error after EVERY offset, EVERY fixed chunk size with and without (n>0, EOF), a random chunking, an open error — each against Load, LoadRaw, LoadPlusRaw and Fill; evaluations counts every (fault, loader) execution; distinct_nontrivial counts (block, fault class, loader) triples, each class being enumerated completely for its block",
+	Rule: "per drawn block (small value × 5 codecs × 10 hash functions incl. identity and 1-2 byte truncated digests; blocks ≤160 B): EVERY single-bit flip, EVERY truncation length, extensions (1 byte, whitespace, duplicate item, random tail; also delivered in chunks ending at the old end, byte-wise, and with a (0, nil) read at the old end), a (0, nil) read after EVERY offset of the correct block, substitution by another block / empty block, a read error after EVERY offset, EVERY fixed chunk size with and without (n>0, EOF), a random chunking, an open error — each against Load, LoadRaw, LoadPlusRaw and Fill, and against Load / Fill with a prototype of another kind than the block's root (the wrong-kind error must not take precedence over a hash mismatch); evaluations counts every (fault, loader) execution; distinct_nontrivial counts (block, fault class, loader) triples, each class being enumerated completely for its block",
 	Gen: func(t *rapid.T) C06Case {
 		lp := drawC06LP(t)
 		return C06Case{LP: lp, V: drawSmallCodecValue(t, lp.Codec, "v"), Other: drawSmallCodecValue(t, lp.Codec, "other"),
